@@ -134,6 +134,45 @@ def _probeable(fs):
   return f
 
 
+def _mros(classes):
+  """C3 linearisation of the stub's classes restricted to each other, computed
+  by CPython itself on dummy classes. Classes with bases outside the stub (or
+  an inconsistent order) keep only themselves."""
+  built = {}
+  out = {}
+
+  def build(name, stack=()):
+    if name in built:
+      return built[name]
+    if name in stack:
+      return None
+    bases = []
+    for b in classes[name]["bases"]:
+      if b in ("object",):
+        continue
+      if b not in classes:
+        built[name] = None
+        return None
+      pb = build(b, stack + (name,))
+      if pb is None:
+        built[name] = None
+        return None
+      bases.append(pb)
+    try:
+      built[name] = type(name, tuple(bases), {})
+    except TypeError:
+      built[name] = None
+    return built[name]
+
+  for name in classes:
+    k = build(name)
+    if k is None:
+      out[name] = [name]
+    else:
+      out[name] = [c.__name__ for c in k.__mro__ if c is not object]
+  return out
+
+
 def derive_downstream(stub_info, up="a", rng=None):
   """Returns (source of B, {probe name: expected annotation text})."""
   lines = ["import %s" % up, "from typing import Any", "ANY: Any = None", ""]
@@ -158,8 +197,22 @@ def derive_downstream(stub_info, up="a", rng=None):
   for cname, ann in sorted(stub_info["consts"].items()):
     if ann in stub_info["classes"] and ann not in inst_of:
       inst_of[ann] = cname
-  for cls, c in sorted(stub_info["classes"].items()):
+  mros = _mros(stub_info["classes"])
+  for cls, c0 in sorted(stub_info["classes"].items()):
     inst = inst_of.get(cls)
+    # the class's own members, then members inherited from other classes of the
+    # same stub in C3 order (computed with real Python classes, independently
+    # of pytype's mro module)
+    merged = {"consts": {}, "funcs": {}, "classes": dict(c0["classes"])}
+    for k in mros.get(cls, [cls]):
+      ck = stub_info["classes"][k]
+      for aname, ann in ck["consts"].items():
+        if aname not in merged["consts"] and aname not in merged["funcs"]:
+          merged["consts"][aname] = ann
+      for mname, fs in ck["funcs"].items():
+        if mname not in merged["consts"] and mname not in merged["funcs"]:
+          merged["funcs"][mname] = fs
+    c = merged
     for aname, ann in sorted(c["consts"].items()):
       if aname.startswith("__"):
         continue
